@@ -947,10 +947,18 @@ func (ft *FuncTr) ret(st *State, at *Term, x *ssa.Return) error {
 			if err != nil {
 				// a local that is not in scope at this return: the clause does not speak about this exit
 				if strings.Contains(err.Error(), "unknown identifier") {
+					if ft.exitSkip == nil {
+						ft.exitSkip = map[int]string{}
+					}
+					ft.exitSkip[i] = err.Error()
 					continue
 				}
 				return fmt.Errorf("exit assert[%d] (%s:%d): %v", i+1, ex.File, ex.Line, err)
 			}
+			if ft.exitHit == nil {
+				ft.exitHit = map[int]bool{}
+			}
+			ft.exitHit[i] = true
 			var guard []*Term
 			seen := map[*ssa.Alloc]bool{}
 			for _, a := range used {
